@@ -17,6 +17,7 @@ STATIC_THEOREMS = [
     'SnapraidVerif.Props.C15.auto_bound',
     'SnapraidVerif.Props.C15.scrub_progress',
     'SnapraidVerif.Props.C15.eventually_scrubbed',
+    'SnapraidVerif.Props.C15.auto_full_coverage',
 ]
 
 NOW = 1_700_000_000
